@@ -62,7 +62,7 @@ class Prop(PropBase):
         wins = [0, 30000, 65525 - 47]
         w = 48 if tier == 'quick' else 64
         for base in wins:
-            for p in range(base, base + w, 1 if tier != 'quick' else 2):
+            for p in range(base, min(base + w, 65536), 1 if tier != 'quick' else 2):      # packet numbers are 16-bit on the wire
                 for s in range(max(0, base - 12), min(65536, base + w + 12)):
                     mx = rng.choice([p, p + 5, 65000, 0])
                     ks.append(f'K seq {p} {min(mx, 65535)} {rng.randrange(2)} {s}')
@@ -105,7 +105,9 @@ class Prop(PropBase):
                         s.pkt(0, scen.mems_msop(rng, l, n * mul, return_mode=4), tick=0)
                 scn_all.append(s.text())
                 lens = [len(x) for x in scans]
-                m1_ok = t != 'RSM1' or all(max(sc) <= max(scans[1]) and sc[-1] == max(sc) for sc in scans[1:]) and all(sc[0] >= 1 for sc in scans)
+                # RSM1 closes a scan after the packet carrying the highest number seen so far (all-time maximum, in force after the first
+                # rewind): a later scan that grows beyond every earlier one is the recorded finding m1-scan-growth
+                m1_ok = t != 'RSM1' or all(max(sc) <= max(max(x) for x in scans[:k]) and sc[-1] == max(sc) for k, sc in enumerate(scans) if k >= 1) and all(sc[0] >= 1 for sc in scans)
                 if not l.jumbo and tolerated_stream(scans):
                     self.expect[name] = (lens, l.nblk * l.nchan, t, m1_ok, scans)
         # corpus: recorded finding D16 (M1: the scan grows after the first rewind)
